@@ -11,7 +11,10 @@
 (***************************************************************************)
 EXTENDS CobraModelOps, Json
 
-CONSTANTS Profile, Depth, NWalks, Seed, Emit
+CONSTANTS Profile, Depth, NWalks, Seed, Emit,
+          FullSet,   \* "all" | "bounds": which part of FullOps is enumerated
+          Mode       \* "walk": seeded pseudo-random walks; "full": EVERY sequence of Depth operations of the small
+                     \* vocabulary FullOps applied inside a context opened on seed model 1 (exhaustive)
 
 VARIABLES st, hist, rng, walk
 vars == <<st, hist, rng, walk>>
@@ -84,13 +87,14 @@ Mix ==
                              "KnockOutModelGenes", "RemoveGenes", "RenameGene", "RenameReaction", "RenameMetabolite",
                              "SetObjective", "SetObjCoef", "SetDirection", "SetMedium", "GetMedium", "SwitchSolver",
                              "AddUserCons", "AddUserVar", "RemoveUserCons", "RemoveUserVar", "AddGroup", "RemoveGroup",
-                             "Copy", "Enter", "Exit", "RoundTrip">>
+                             "Copy", "Enter", "Exit", "RoundTrip", "DetachedSetBounds">>
     [] Profile = "ctx" -> <<"Enter", "Enter", "Enter", "Exit", "Exit", "Exit", "AddReactions", "RemoveReactions",
                             "RemoveReactions", "AddMetabolites", "RemoveMetabolites", "AddBoundary", "RxnAddMetabolites",
                             "RxnAddMetabolites", "RxnSubtractMetabolites", "RxnIMul", "RxnIAdd", "RxnISub", "SetLB", "SetUB",
                             "SetBounds", "RxnKnockOut", "SetRule", "GeneKnockOut", "KnockOutModelGenes", "RemoveGenes",
                             "RenameGene", "SetObjective", "SetObjCoef", "SetDirection", "SetMedium", "SwitchSolver",
-                            "AddUserCons", "AddUserVar", "RemoveUserCons", "RemoveUserVar", "Helper", "Helper">>
+                            "AddUserCons", "AddUserVar", "RemoveUserCons", "RemoveUserVar", "Helper", "Helper",
+                            "DetachedSetBounds", "DetachedSetBounds">>
     [] Profile = "ko" -> <<"GeneKnockOut", "GeneKnockOut", "GeneKnockOut", "KnockOutModelGenes", "KnockOutModelGenes",
                            "RxnKnockOut", "SetRule", "SetRule", "Enter", "Exit", "SetBounds", "AddReactions">>
     [] Profile = "copy" -> <<"Copy", "Copy", "AddReactions", "RemoveReactions", "RemoveMetabolites", "RxnAddMetabolites",
@@ -133,7 +137,7 @@ DrawOp(r, S) ==
       k1 == IF k0 = "SwitchSolver" /\ IsModel(S.m[s]) /\ Len(S.ctx[s]) > 0 /\ d[23] % 5 # 0 THEN "SetDirection" ELSE k0
       \* operations that are not documented as reversible (renaming, groups, annotations) are exercised outside
       \* contexts only: C03 quantifies over documented-as-reversible changes
-      k == IF k1 \in NotContextAware /\ IsModel(S.m[s]) /\ Len(S.ctx[s]) > 0 THEN "SetObjCoef" ELSE k1
+      k == IF k1 \in (NotContextAware \ {"DetachedSetBounds"}) /\ IsModel(S.m[s]) /\ Len(S.ctx[s]) > 0 THEN "SetObjCoef" ELSE k1
       rx == PickPresent(RxSeq, C.rxns, d[3])
       rx2 == PickPresent(RxSeq, C.rxns, d[4])
       mt == PickPresent(MetSeq, C.mets, d[5])
@@ -161,13 +165,18 @@ DrawOp(r, S) ==
     [] k = "SetUB" -> base @@ [r |-> rx, v |-> Pick(HiVals, d[8])]
     [] k = "SetBounds" -> base @@ [r |-> rx, lo |-> Pick(LoVals, d[8]), hi |-> Pick(HiVals, d[9])]
     [] k = "RxnKnockOut" -> base @@ [r |-> rx]
+    [] k = "DetachedSetBounds" -> base @@ [r |-> PickPresent(RxSeq, RxU \ C.rxns, d[3]), lo |-> Pick(LoVals, d[8]), hi |-> Pick(HiVals, d[9])]
     [] k = "SetRule" -> base @@ [r |-> rx, rule |-> Pick(RuleU, d[8]), form |-> d[9] % 2]
     [] k = "GeneKnockOut" -> base @@ [g |-> gn]
     [] k = "KnockOutModelGenes" -> base @@ [gs |-> IF d[8] % 2 = 0 /\ gn # gn2 THEN <<gn, gn2>> ELSE <<gn>>, form |-> d[9] % 3]
     [] k = "RemoveGenes" -> base @@ [gs |-> IF d[8] % 3 = 0 /\ gn # gn2 THEN <<gn, gn2>> ELSE <<gn>>, rr |-> d[9] % 2 = 0, form |-> d[10] % 2]
-    [] k = "RenameGene" -> base @@ [g |-> gn, new |-> Pick(GeneSeq, d[8])]
+    [] k = "RenameGene" ->
+         LET new1 == Pick(GeneSeq, d[8])
+             new2 == IF d[9] % 2 = 0 THEN new1 ELSE Pick(GeneSeq, d[10])
+             two == d[11] % 2 = 0 /\ gn2 # gn /\ new1 \notin {gn, gn2} /\ new2 \notin {gn, gn2} IN
+         base @@ [g |-> gn, new |-> new1, more |-> IF two THEN <<[g |-> gn2, new |-> new2]>> ELSE <<>>]
     [] k = "RenameReaction" -> base @@ [r |-> rx, new |-> Pick(PlainRx, d[8])]
-    [] k = "RenameMetabolite" -> base @@ [met |-> mt, new |-> Pick(<<"m1", "m2">>, d[8])]
+    [] k = "RenameMetabolite" -> base @@ [met |-> mt, new |-> IF mt \in ExtMets THEN Pick(<<"m3", "m4">>, d[8]) ELSE Pick(<<"m1", "m2">>, d[8])]
     [] k = "SetObjective" ->
          base @@ [form |-> d[8] % 4,
                   d |-> IF d[8] % 4 # 0 THEN [x \in RxU |-> IF x = rx THEN 1 ELSE 0]
@@ -193,7 +202,39 @@ DrawOp(r, S) ==
     [] k = "Analyze" -> base @@ [kind |-> Pick(AnalysisKinds, d[8]), arg |-> d[9] % 4]
     [] k = "Helper" -> base @@ [kind |-> Pick(HelperKinds, d[8])]
 
+\* ------------------------------------------------------------- exhaustive small-scope vocabulary (Mode = "full")
+\* all on reaction r1 of seed model 1 (bounds (0, 1000), rule g1, in the chain EX_m3 -> r1 -> r2 -> r3 -> EX_m4)
+D1(m, k) == [x \in MetU |-> IF x = m THEN k ELSE 0]
+BoundOps ==
+  {[a |-> "SetLB", s |-> 1, r |-> "r1", v |-> v] : v \in {-10, 5, 1500}}
+  \cup {[a |-> "SetUB", s |-> 1, r |-> "r1", v |-> v] : v \in {-5, 500, 2000}}
+  \cup {[a |-> "SetBounds", s |-> 1, r |-> "r1", lo |-> -5, hi |-> 5],
+        [a |-> "RxnKnockOut", s |-> 1, r |-> "r1"],
+        [a |-> "GeneKnockOut", s |-> 1, g |-> "g1"],
+        [a |-> "Enter", s |-> 1], [a |-> "Exit", s |-> 1]}
+FullOps ==
+  IF FullSet = "bounds" THEN BoundOps ELSE
+  BoundOps
+  \cup {
+        [a |-> "SetRule", s |-> 1, r |-> "r1", rule |-> Or2(G("g2"), G("g4")), form |-> 0],
+        [a |-> "RxnIMul", s |-> 1, r |-> "r1", k |-> -1],
+        [a |-> "RxnAddMetabolites", s |-> 1, r |-> "r1", d |-> D1("m2", 1), combine |-> TRUE, form |-> 0],
+        [a |-> "RxnAddMetabolites", s |-> 1, r |-> "r1", d |-> D1("m1", 2), combine |-> FALSE, form |-> 1],
+        [a |-> "RemoveReactions", s |-> 1, rs |-> <<"r1">>, orphans |-> TRUE, form |-> 0],
+        [a |-> "AddReactions", s |-> 1, shape |-> 2, specs |-> <<Spec("r4", St1("m1", -1, "m4", 2), -5, 5, And2(G("g1"), G("g4")))>>],
+        [a |-> "RemoveMetabolites", s |-> 1, ms |-> <<"m1">>, destructive |-> FALSE, form |-> 0],
+        [a |-> "RemoveGenes", s |-> 1, gs |-> <<"g1">>, rr |-> FALSE, form |-> 0],
+        [a |-> "SetObjCoef", s |-> 1, r |-> "r1", v |-> 2],
+        [a |-> "SetDirection", s |-> 1, dir |-> "min"],
+        [a |-> "SetMedium", s |-> 1, d |-> [x \in RxU |-> IF x = "EX_m3" THEN 5 ELSE Missing]],
+        [a |-> "DetachedSetBounds", s |-> 1, r |-> "r1", lo |-> 0, hi |-> 5],
+        [a |-> "Enter", s |-> 1], [a |-> "Exit", s |-> 1]}
+FullPrefix == SeedOps(1, "glpk") \o <<[a |-> "Enter", s |-> 1]>>
+
 Init ==
+  IF Mode = "full"
+  THEN /\ walk = 0 /\ rng = 0 /\ hist = FullPrefix /\ st = ApplyAll(FullPrefix, InitState)
+  ELSE
   /\ walk \in 1..NWalks
   /\ rng = LCG((Seed * 7919 + walk * 104729) % 65537)
   /\ LET d == Draws(rng, 2)
@@ -202,6 +243,11 @@ Init ==
      /\ st = ApplyAll(ops, InitState)
 
 Next ==
+  IF Mode = "full"
+  THEN /\ Len(hist) < Len(FullPrefix) + Depth
+       /\ \E op \in FullOps : st' = Apply(op, st).st /\ hist' = Append(hist, op)
+       /\ UNCHANGED <<rng, walk>>
+  ELSE
   /\ Len(hist) < Depth
   /\ LET op == DrawOp(rng, st) IN
      /\ st' = Apply(op, st).st
@@ -236,7 +282,8 @@ InvRemoveRule ==
   \A t \in SeqSet(RuleU) : \A K \in SUBSET {"g1", "g2", "g3"} :
      Eval(t, K) => \A K2 \in SUBSET {"g1", "g2", "g3"} : Eval(RemoveRule(t, K), K2) = Eval(t, K \cup K2)
 
+EndLen == IF Mode = "full" THEN Len(FullPrefix) + Depth ELSE Depth
 Constr ==
-  /\ Len(hist) <= Depth
-  /\ (Emit /\ Len(hist) = Depth) => PrintT(ToJson([walk |-> walk, ops |-> hist]))
+  /\ Len(hist) <= EndLen
+  /\ (Emit /\ Len(hist) = EndLen) => PrintT(ToJson([walk |-> walk, ops |-> hist]))
 =============================================================================
